@@ -68,6 +68,9 @@ func msgByName(n string) *msgT {
 	return nil
 }
 
+// inputs that are complete minimal messages (right discriminator, known type, valid mandatory part)
+var validTails = map[string]bool{}
+
 // long-lived Messages, one per entry point and family
 var reusedMsgs = map[string]*nas.Message{}
 
@@ -152,13 +155,56 @@ func dispatchCases(r *hk.Run) {
 			})
 			if p2 || err2 != nil {
 				fail(r, "C05", site, "reused-message-rejected", hk.Hex(in), "decoding into a Message that was used before fails although a fresh Message accepts the input")
+				fail(r, "C02", site, "reused-message-rejected", hk.Hex(in), "decoding into a Message that was used before fails although a fresh Message accepts the input")
 			} else if o2 := observe(rm); o2.coq() != o.coq() {
 				fail(r, "C05", site, "reused-message-differs", hk.Hex(in), fmt.Sprintf("decoding into a Message used before populates %v, a fresh Message %v", o2.bodies, o.bodies))
+				fail(r, "C02", site, "reused-message-differs", hk.Hex(in), fmt.Sprintf("decoding into a Message used before populates %v, a fresh Message %v", o2.bodies, o.bodies))
 			}
 		}
 		// ---- C10: the entry points neither write to nor keep a reference into the caller's bytes
 		if !isNil && (!bytes.Equal(arg, in) || !bytes.Equal(big[len(in):], bytes.Repeat([]byte{0xa5}, 16))) {
 			fail(r, "C10", site, "input-modified", hk.Hex(in), "the decoder wrote to the input bytes or to the octets following them: "+hk.Hex(big))
+		}
+		// ---- C10: the result is a function of the input octets alone: the same octets at exact capacity and in
+		// front of other leftovers (a reused receive buffer) decode to the same outcome, error text included
+		if !isNil && (prop == "C10" || len(in) < 8) {
+			errText := func(e error) string {
+				if e == nil {
+					return ""
+				}
+				return e.Error()
+			}
+			for _, fill := range []int{-1, 0xc1, 0x41, 0x00} {
+				var arg2 []byte
+				if fill < 0 {
+					arg2 = hk.Exact(in)
+				} else {
+					b2 := bytes.Repeat([]byte{byte(fill)}, len(in)+16)
+					copy(b2, in)
+					arg2 = b2[:len(in)]
+				}
+				m2 := nas.NewMessage()
+				var err2 error
+				p2, _ := hk.Catch(func() {
+					switch entry {
+					case 0:
+						err2 = m2.PlainNasDecode(&arg2)
+					case 1:
+						err2 = m2.GmmMessageDecode(&arg2)
+					case 2:
+						err2 = m2.GsmMessageDecode(&arg2)
+					}
+				})
+				same := p2 == panicked
+				if same && !panicked {
+					same = errText(err2) == errText(err) && (err != nil || observe(m2).coq() == o.coq())
+				}
+				if !same {
+					fail(r, "C10", site, "depends-on-octets-beyond-input", hk.Hex(in),
+						fmt.Sprintf("the same octets decode differently when the slice has no spare capacity / is followed by 0x%02x octets (first: err=%q, now: err=%q)", fill&0xff, errText(err), errText(err2)))
+					break
+				}
+			}
 		}
 		if prop == "C10" && o.class == "ok" {
 			for i := range arg {
@@ -213,7 +259,12 @@ func dispatchCases(r *hk.Run) {
 			return
 		}
 		if o.class != "ok" {
-			return // the body decoder may legitimately reject the rest
+			// the body decoder may legitimately reject the rest -- unless the input is a complete minimal
+			// message of the type its header names
+			if validTails[hk.Hex(in)] {
+				fail(r, "C05", site, "rejects-valid-message", hk.Hex(in), "a complete "+wantName+" message is rejected")
+			}
+			return
 		}
 		if len(o.bodies) != 1 || o.bodies[0] != wantName {
 			fail(r, "C05", site, "wrong-body", hk.Hex(in), fmt.Sprintf("populated bodies %v, message type names %s", o.bodies, wantName))
@@ -256,13 +307,18 @@ func dispatchCases(r *hk.Run) {
 				} else {
 					name = pinnedGsmTypes[uint8(ty)]
 				}
+				tailOK := false
 				if t, ok := tails[name]; ok {
 					in = hk.Exact(t)
+					tailOK = true
 				} else {
 					in = []byte{0, 0, 0, 0, 0, 0, 0, 0}
 				}
 				in[0] = byte(epd)
 				in[off] = byte(ty)
+				if tailOK && ((epd == 0x7e && off == 2) || (epd == 0x2e && off == 3)) {
+					validTails[hk.Hex(in)] = true
+				}
 				interesting := epd == 0x7e || epd == 0x2e
 				toModel := !quick || (interesting && (off == 2) == (epd == 0x7e)) || (ty%37 == 0 && epd%29 == 0)
 				dec("grid", 0, in, false, toModel)
